@@ -58,15 +58,29 @@ def catchLoop (c : Cfg) (ls : List Label) : XRes → Step
   | .ok (.cont l) st => if !c.labels || labelIn l ls then .next st else .raise (.ok (.cont l) st)
   | r => .raise r
 
-/-- `caseMatches(tag, case_.List)` for one clause -/
-def caseMatches (tagv : Int) (s : Stack) (gs : List Guard) : Bool := gs.any (guardMatch tagv s)
+/-- one iteration of the loop of `caseMatches`: `v := env.evalExpr1(expr)` (with its side effect, the emit of
+    a `g(tag, e)` call), then `v.Interface() == i` -/
+def evalGuard (tagv : Int) (st : St) : Guard → Bool × St
+  | .val e => (decide (e.eval st.stack = tagv), st)
+  | .cond c => (c.eval st.stack, st)
+  | .eff t e => (decide (e.eval st.stack = tagv), st.emit t e)
 
-/-- first loop of `evalSwitch` up to the first clause that matches (`default:` clauses are skipped) -/
-def pickCase (tagv : Int) (s : Stack) : Stmt → Option Stmt
+/-- `caseMatches(tag, case_.List)`: the expressions are evaluated in order, `return true` at the first one
+    that equals the tag (the remaining ones are not evaluated) -/
+def caseMatches (tagv : Int) (st : St) : List Guard → Bool × St
+  | [] => (false, st)
+  | g :: r =>
+    let m := evalGuard tagv st g
+    if m.1 then (true, m.2) else caseMatches tagv m.2 r
+
+/-- first loop of `evalSwitch` up to the first clause that matches (`default:` clauses are skipped);
+    the state carries the side effects of all case expressions evaluated on the way -/
+def pickCase (tagv : Int) (st : St) : Stmt → Option Stmt × St
   | .clause (some gs) ft body rest =>
-    if caseMatches tagv s gs then some (.clause (some gs) ft body rest) else pickCase tagv s rest
-  | .clause none _ _ rest => pickCase tagv s rest
-  | _ => none
+    let r := caseMatches tagv st gs
+    if r.1 then (some (.clause (some gs) ft body rest), r.2) else pickCase tagv r.2 rest
+  | .clause none _ _ rest => pickCase tagv st rest
+  | _ => (none, st)
 
 /-- `default_i` after the first loop found no match: the LAST `default:` clause of the list -/
 def pickDefault (acc : Option Stmt) : Stmt → Option Stmt
@@ -145,13 +159,14 @@ def exec (c : Cfg) : Nat → Stmt → St → XRes
           let tagv : Int := match tag with
             | some e => e.eval st2.stack
             | none => 0
-          let start := match pickCase tagv st2.stack cls with
+          let r := pickCase tagv st2 cls
+          let start := match r.1 with
             | some cl => some cl                       -- first loop found a match
             | none => pickDefault none cls             -- second loop starts at default_i
           match start with
-          | none => .ok .normal (st2.popIf loc)
+          | none => .ok .normal (r.2.popIf loc)
           | some cl =>
-            match execCases c n ls cl st2 with
+            match execCases c n ls cl r.2 with
             | .ok o st3 => .ok o (st3.popIf loc)
             | .timeout => .timeout
         | .ok o st2 => .ok o (st2.popIf loc)
